@@ -21,7 +21,7 @@ ASSUMPTIONS = [
     "which conditions trigger a rebuild (version gate, hash test, is_dir) is transcribed by hand and checked by the translator's pattern "
     "match on db.rs plus the correspondence runs",
 ]
-PROBES = ["pi", "speed of light", "population finland", "mass of earth / 2", "1 km to m"]
+PROBES = ["pi", "speed of light", "population finland", "mass of earth / 2", "1 km to m", "zzyzx quuxium", "zzyzx", "popul finl", "speed of li"]
 
 
 class Sandbox:
@@ -115,13 +115,48 @@ def run(rng, tier, model_ok):
             os.remove(os.path.join(ip, "meta.json"))
             json.dump(dict(cur_meta, database_hash="0123"), open(mp, "w"))
             return (2 + 3 * 1 + 2, 1)
+        if state.startswith("foreign_layout"):
+            # an index written with another layout (as another release would), under metadata of another patch release / another
+            # minor release of the same line
+            r = subprocess.run([sb.exe], env=dict(sb.env(), DB_RUN_MODE="poison_layout"), capture_output=True, text=True, timeout=120)
+            if r.returncode != 0:
+                raise vlib.BuildError("cannot prepare an index with a foreign layout: %s %s" % (r.stdout[-200:], r.stderr[-200:]))
+            parts = cur_meta["version"].split(".")
+            if state == "foreign_layout_other_patch":
+                parts[-1] = str(int("".join(ch for ch in parts[-1] if ch.isdigit()) or "0") + 1)
+            else:
+                parts[-2] = str(int(parts[-2]) + 1) if len(parts) >= 2 and parts[-2].isdigit() else "9"
+            json.dump(dict(cur_meta, version=".".join(parts)), open(mp, "w"))
+            return (2 + 3 * 2 + 1, 4)
+        if state.startswith("foreign_data"):
+            # an index that holds a fact which is not shipped (as one written for other data would), under metadata that does not
+            # declare it current
+            r = subprocess.run([sb.exe], env=dict(sb.env(), DB_RUN_MODE="poison"), capture_output=True, text=True, timeout=120)
+            if r.returncode != 0:
+                raise vlib.BuildError("cannot prepare an index with foreign data: %s %s" % (r.stdout[-200:], r.stderr[-200:]))
+            if state == "foreign_data_other_hash":
+                json.dump(dict(cur_meta, database_hash="0123456789abcdef"), open(mp, "w"))
+                return (2 + 3 * 1 + 2, 4)
+            if state == "foreign_data_no_hash":
+                json.dump({"version": cur_meta["version"]}, open(mp, "w"))
+                return (2 + 3 * 1 + 0, 4)
+            if state == "foreign_data_other_version":
+                json.dump(dict(cur_meta, version="0.0.0-other"), open(mp, "w"))
+                return (2 + 3 * 2 + 1, 4)
+            if state == "foreign_data_meta_missing":
+                os.remove(mp)
+                return (0, 4)
+            if state == "foreign_data_meta_garbage":
+                open(mp, "w").write("{\"version\": \"0.1")
+                return (1, 4)
         if state == "everything_missing_but_dir":
             os.remove(mp)
             shutil.rmtree(ip)
             return (0, 0)
         raise ValueError(state)
     states = ["absent", "current", "other_version", "other_hash", "meta_missing", "meta_truncated", "meta_garbage", "meta_no_keys",
-              "meta_only_version", "index_missing", "index_broken", "index_broken_other_hash", "everything_missing_but_dir"]
+              "meta_only_version", "index_missing", "index_broken", "index_broken_other_hash", "everything_missing_but_dir",
+              "foreign_data_other_hash", "foreign_data_no_hash", "foreign_data_other_version", "foreign_data_meta_missing", "foreign_data_meta_garbage", "foreign_layout_other_patch", "foreign_layout_other_minor"]
     cps = list(range(1, 11))
     histories = [[c] for c in cps]
     if tier == "thorough":
@@ -169,8 +204,9 @@ def run(rng, tier, model_ok):
     shutil.rmtree(root, ignore_errors=True)
     return {
         "evaluations": runs, "distinct_nontrivial": len(cases),
-        "rule": "13 prior directory states (absent; current; other version; other hash; metadata missing / truncated / torn / without keys / "
-                "version only; index directory missing / unopenable (with current and with other hash); empty directory) x every crash point "
+        "rule": "20 prior directory states (absent; current; other version; other hash; metadata missing / truncated / torn / without keys / "
+                "version only; index directory missing / unopenable (with current and with other hash); empty directory; an index holding a fact that "
+                "is not shipped under five kinds of metadata that do not declare it current; an index of another layout under the version of another patch / minor release) x every crash point "
                 "1..10 (and pairs of crash points), each followed by a complete start compared with an in-memory database; non-trivial = "
                 "distinct (state, kill history) cases",
         "samples": samples, "mismatches": mismatches, "failures": failures,
